@@ -19,8 +19,8 @@ var alphabet = []byte{' ', '\t', '\n', '"', '\\', '=', '<', 'a', 0xC3}
 
 // countingReader hands out one byte at a time and counts what was consumed.
 type countingReader struct {
-	data []byte
-	pos  int
+	data  []byte
+	pos   int
 	reads int
 }
 
@@ -103,6 +103,43 @@ func specSimple(in []byte) (args []string, eof bool, consumed int) {
 	return
 }
 
+// specStop computes where reading must stop for strings without quote and '<' (backslashes
+// allowed): an escape concerns only the byte that follows it immediately, so a newline ends the
+// command unless it comes directly after an unescaped backslash.
+func specStop(in []byte) (eof bool, consumed int) {
+	esc := false
+	for i, b := range in {
+		switch {
+		case b == '\n':
+			if esc {
+				esc = false
+				continue
+			}
+			return false, i + 1
+		case b == ' ' || b == '\t':
+			esc = false
+		case b == '\\' && !esc:
+			esc = true
+		default:
+			esc = false
+		}
+	}
+	return true, len(in)
+}
+
+// checkSplitAgrees: SplitArguments(string) must answer like ReadArguments on the same bytes.
+func checkSplitAgrees(in []byte, args []string, eof bool, err error, r *sup.CaseResult) {
+	defer func() {
+		if p := recover(); p != nil {
+			r.Violate("split-panic", fmt.Sprintf("SplitArguments(%q) panicked: %v", in, p), nil)
+		}
+	}()
+	a2, e2, err2 := varutil.SplitArguments(string(in))
+	if (err == nil) != (err2 == nil) || (err == nil && (!eqArgs(args, a2) || eof != e2)) {
+		r.Violate("split-string-vs-reader", fmt.Sprintf("SplitArguments(%q) = (%q, eof=%v, err=%v) but ReadArguments on the same bytes = (%q, eof=%v, err=%v)", in, a2, e2, err2, args, eof, err), nil)
+	}
+}
+
 func eqArgs(a, b []string) bool {
 	if len(a) != len(b) {
 		return false
@@ -145,7 +182,7 @@ func runExh(c *sup.Child, b sup.Batch) {
 			to = b.To
 		}
 		c.Case(from, map[string]any{"kind": "exh", "from": from, "to": to, "len": n}, func(r *sup.CaseResult) {
-			var simple, total, errs, withArgs int64
+			var simple, total, errs, withArgs, stops int64
 			seenPrefix := map[string]bool{}
 			for idx := from; idx < to; idx++ {
 				full := decode(idx, n)
@@ -175,12 +212,20 @@ func runExh(c *sup.Child, b sup.Batch) {
 						if err != nil || !eqArgs(args, wa) || eof != we || consumed != wc {
 							r.Violate("split-simple-mismatch", fmt.Sprintf("ReadArguments(%q) = (%q, eof=%v, err=%v, consumed=%d); expected (%q, eof=%v, consumed=%d)", in, args, eof, err, consumed, wa, we, wc), nil)
 						}
+					} else if !bytes.ContainsAny(in, "\"<") {
+						stops++
+						we, wc := specStop(in)
+						if err != nil || eof != we || consumed != wc {
+							r.Violate("split-stop-position", fmt.Sprintf("ReadArguments(%q) = (%q, eof=%v, err=%v) consumed %d bytes; a newline ends the command unless it directly follows an unescaped backslash: expected eof=%v, consumed=%d", in, args, eof, err, consumed, we, wc), nil)
+						}
 					}
+					checkSplitAgrees(in, args, eof, err, r)
 					if len(r.Violations) > 20 {
 						return
 					}
 				}
 			}
+			r.AddObs("exh_stop_position_exact", stops)
 			r.Evals = total
 			r.AddObs("exh_strings", total)
 			r.AddObs("exh_simple_exact", simple)
@@ -502,12 +547,21 @@ func runRand(c *sup.Child, b sup.Batch) {
 					case full:
 						in[i] = byte(rng.Intn(256))
 					case noSpecial:
-						in[i] = []byte{' ', '\t', '\n', '=', 'a', 'b', 0xC3, 0xA9, 0xFF, 0x80, '-', '\r', 0}[rng.Intn(13)]
+						in[i] = []byte{' ', '\t', '\n', '=', 'a', 'b', 0xC3, 0xA9, 0xFF, 0x80, '-', '\r', 0, '\v', '\f', 0xC2, 0xA0, 0x85, 0xE3}[rng.Intn(19)]
 					default:
 						in[i] = alphabet[rng.Intn(len(alphabet))]
 					}
 				}
 				args, eof, err, consumed, ok := checkTotal(in, r)
+				if ok {
+					checkSplitAgrees(in, args, eof, err, r)
+				}
+				if ok && bytes.ContainsAny(in, "\\") && !bytes.ContainsAny(in, "\"<") {
+					we, wc := specStop(in)
+					if err != nil || eof != we || consumed != wc {
+						r.Violate("split-stop-position", fmt.Sprintf("ReadArguments(%q) consumed %d bytes (eof=%v, err=%v); expected eof=%v, consumed=%d", in, consumed, eof, err, we, wc), nil)
+					}
+				}
 				if ok && !bytes.ContainsAny(in, "\"\\<") {
 					simple++
 					wa, we, wc := specSimple(in)
